@@ -24,6 +24,7 @@ EXPLANATION = (
     "path returns its input; R04.3 no code path in the package builds or mutates a model without validation "
     "(model_construct, construct, model_copy(update=), object.__setattr__, __dict__ writes) -- zero occurrences, with a "
     "positive fixture matched on every run. That pydantic runs the same validators for constructor / dict / JSON input is trusted."
+    'R04.2 for Clip evaluates the rejection also on near-equal placements (one ulp to 1e-10 relative at several magnitudes): a tolerance accepts a clip that starts after it ends. The reader / writer pair rules of C01 are run on the adapters of the relational models (clip evaluation, match, clip, annotation project). '
 )
 ASSUMPTIONS = [
     "pydantic applies Field(ge/le) and model validators identically for __init__, model_validate and model_validate_json (trusted)",
